@@ -55,6 +55,42 @@ def parseAttr (j : Json) : WireAttr Nat :=
   { name := encOpt j "name", nameFormat := encOpt j "nf", friendlyName := encOpt j "fn",
     values := (arr? j "values").map (·.map parseValue) }
 
+/-- A value as a peer writes it: "text" is the character content, "xsi_type" the declared type, "conv" what
+    Python's int/float/strptime/boolean table make of the text (absent or null: refused). -/
+def parseTyped (j : Json) : TypedValue Nat :=
+  let o := (obj? j "conv").getD Json.null
+  { xsiType := encOpt j "xsi_type", raw := encOpt j "text", ext := (arrD j "ext").map parseExt,
+    oracle := { int := encOpt o "int", float := encOpt o "float", bool := encOpt o "bool", date := encOpt o "date" } }
+
+/-- The attribute after parsing its values (`raised`: a value does not fit its declared type). -/
+def parseAttrTyped (j : Json) : Res (WireAttr Nat) :=
+  let base := parseAttr j
+  match arr? j "values" with
+  | none => .ok base
+  | some vs => match parseValues natOps natTypeOps (vs.map parseTyped) with
+    | .raised => .raised
+    | .ok ws => .ok { base with values := some ws }
+
+def allOk {β : Type} : List (Res β) → Res (List β)
+  | [] => .ok []
+  | .raised :: _ => .raised
+  | .ok x :: t => match allOk t with
+    | .raised => .raised
+    | .ok r => .ok (x :: r)
+
+def typedLabels (j : Json) : List String :=
+  (arrD j "values").filterMap fun v =>
+    match str? v "xsi_type" with
+    | none => none
+    | some t =>
+      let tv := parseTyped v
+      let l := natTypeOps.typeLocal (enc t)
+      let k := match natTypeOps.kind l with
+        | .preserve => "preserve" | .int => "int" | .float => "float" | .bool => "bool" | .date => "date"
+      let pre := if t.startsWith "xs:" || t.startsWith "xsd:" then "xs" else if t.contains ':' then "foreign-prefix" else "unprefixed"
+      some ("value/typed/" ++ pre ++ "/" ++ k ++ (match parsedText natOps natTypeOps tv.xsiType tv.raw tv.oracle with
+        | .raised => "/mismatch" | .ok _ => ""))
+
 def optN : Option Nat → Json
   | some n => Json.str (dec n)
   | none => Json.null
@@ -235,10 +271,18 @@ def handle (bundled : List Bundled) (line : Json) : Json :=
         ("spec_model", okM), ("spec_impl", okI), ("why", jarr (why.map fun (k, n) => jarr [Json.str k, Json.str (dec n)]))]
     | "to_local" =>
       let allow := boolD c "allow"
-      let attrs0 := (arrD c "attrs").map parseAttr
+      let iv := (parseLocalRes impl).getD .raised
+      let tlabels := ((arrD c "attrs").map typedLabels).flatten
+      match allOk ((arrD c "attrs").map parseAttrTyped) with
+      | .raised =>
+        -- a value does not fit its declared type: parsing the statement fails; the specification is silent
+        Json.mkObj [("model", Json.mkObj [("r", "raised")]), ("path", "recv/typed-value-mismatch"),
+          ("paths", jstrs (dedup ("recv/typed-value-mismatch" :: tlabels))),
+          ("spec_model", C17Spec.specParsed (Res.raised : Res Unit) (fun _ => false)),
+          ("spec_impl", C17Spec.specParsed (Res.raised : Res Unit) (fun _ => false)), ("why", jarr [])]
+      | .ok attrs0 =>
       let attrs := if boolD c "xml" then attrs0.map (parsed natOps) else attrs0
       let labels := attrs.map (recvLabel acs allow)
-      let iv := (parseLocalRes impl).getD .raised
       -- "groups": the attribute statements (lists of indices into "attrs") in the order get_identity reads them
       let groups : Option (List (List (WireAttr Nat))) := (arr? c "groups").map fun gs =>
         gs.map fun g => (asArr g).filterMap fun j => (asNat? j).bind fun i => attrs[i]?
@@ -250,7 +294,8 @@ def handle (bundled : List Bundled) (line : Json) : Json :=
           (listToLocal natOps acs allow attrs, C17Spec.specToLocal natOps eff allow attrs (listToLocal natOps acs allow attrs),
            C17Spec.specToLocal natOps eff allow attrs iv, C17Spec.whyToLocal natOps eff allow attrs iv)
       let labels := if (groups.map (·.length)).getD 1 > 1 then labels.map (fun l => l ++ "/multi-statement") else labels
-      Json.mkObj [("model", localResToJson (some m)), ("path", summarise labels "recv/empty-statement"), ("paths", jstrs (dedup labels)),
+      Json.mkObj [("model", localResToJson (some m)), ("path", summarise labels "recv/empty-statement"),
+        ("paths", jstrs (dedup (labels ++ tlabels))),
         ("spec_model", okM), ("spec_impl", okI), ("why", jarr (why.map fun (k, n) => jarr [Json.str k, Json.str (dec n)]))]
     | "roundtrip" =>
       let s := parseSender c
